@@ -361,7 +361,11 @@ def main_check(prop, tier, seed, replay_path=None, jobs=None):
         "violations": len(unlisted),
     }
     if not replay_path:
-        with open(os.path.join(VERIF, "evidence", "%s.json" % prop), "w") as f:
+        # evidence/<id>.json is only ever written by runs against /repo itself; runs against a scratch copy (seeded changes,
+        # my own mutation campaign: VERIF_REPO points elsewhere) leave their record under .work/
+        evdir = os.path.join(VERIF, "evidence") if os.path.realpath(REPO) == "/repo" else os.path.join(VERIF, ".work", "evidence-scratch")
+        os.makedirs(evdir, exist_ok=True)
+        with open(os.path.join(evdir, "%s.json" % prop), "w") as f:
             json.dump(evidence, f, indent=1, sort_keys=True)
     verdict = "VIOLATED" if unlisted else ("INCONCLUSIVE" if (unreached or failures or ev == 0) else "HELD-ON-OBSERVED")
     print("%s tier=%s seed=%d evaluations=%d distinct=%d wall=%.1fs verdict=%s" % (prop, tier, seed, ev, len(distinct) + distinct_extra, wall, verdict))
